@@ -52,6 +52,10 @@ def is_own_map(term, variant=None):
 
 
 def run(fx, rep):
+    # "the iteration variable denotes the current element" needs the loop to bind it on every iteration before the body runs: C10 R2
+    from .report import producer_rules
+    producer_rules(fx, rep, 'producer rule: the comprehension loop binds the iteration variable to the current item before every step and the accumulator after it (C10 R2)',
+                   [('c10', 'C10', r'^R2/.*(iter_var|accu_var|binds)')], 4)
     rep.rule('R1', 'lookup: own map first, parent only on a miss; root consults only its own map')
     rep.rule('R2', 'writes go to the map owned by *self only')
     rep.rule('R3', 'comprehension: range/init in the outer scope before the inner scope exists; cond/step/result in the inner scope; writes target the inner scope')
